@@ -10,17 +10,31 @@ the implementation's (DESIGN §3.5).
 namespace Driver.WQ
 open TV.WorkQueue TV.WorkQueue.Mon Driver
 
+/-- in *fifo* mode blocked producers are admitted (or give up) in the order in which they blocked: the Go
+    runtime queues blocked senders of a channel first-in-first-out, and the harness lets every producer block
+    before it issues the next operation.  This is a search order, not an assumption: when no candidate found in
+    fifo mode matches an observation, the whole case is replayed with every admission order (see `loop`). -/
+def actsFor (fifo : Bool) (s : St) : List Act :=
+  let acts := internalActs s
+  if !fifo then acts else
+  match s.blocked.head? with
+  | none => acts
+  | some h => acts.filter fun a => match a with
+      | .recv id => id == h.id
+      | .giveUp id => id == h.id
+      | _ => true
+
 /-- all quiescent states reachable from the states on the stack by internal steps. -/
-def quiesceAux : Nat → List St → List St → List St → List St
+def quiesceAux (fifo : Bool) : Nat → List St → List St → List St → List St
   | 0, _, _, q => q
   | _ + 1, [], _, q => q
   | f + 1, s :: rest, seen, q =>
-    if seen.contains s then quiesceAux f rest seen q else
-    let acts := internalActs s
-    if acts.isEmpty then quiesceAux f rest (s :: seen) (s :: q)
-    else quiesceAux f (acts.filterMap (step? s) ++ rest) (s :: seen) q
+    if seen.contains s then quiesceAux fifo f rest seen q else
+    let acts := actsFor fifo s
+    if acts.isEmpty then quiesceAux fifo f rest (s :: seen) (s :: q)
+    else quiesceAux fifo f (acts.filterMap (step? s) ++ rest) (s :: seen) q
 
-def quiesce (s : St) : List St := quiesceAux 20000 [s] [] []
+def quiesce (fifo : Bool) (s : St) : List St := quiesceAux fifo 20000 [s] [] []
 
 def dispName : Disp → String
   | .idle => "select" | .fullWait _ => "wait" | .handOff _ _ => "wait"
@@ -79,6 +93,8 @@ structure CaseSt where
   feats : List String := []
   text : String := ""
   prevStarted : List Nat := []
+  fifo : Bool := true         -- search mode (see `actsFor`)
+  hist : List (String × String) := []   -- the case so far, newest first (for the replay in full mode)
 
 structure R where
   diffs : List String := []
@@ -101,8 +117,8 @@ def priorityOrderOK (before : St) (o : Obs) (newly : List Nat) : Bool :=
         !(effPrio before x < effPrio before m || (effPrio before x == effPrio before m && x.id < m.id))
 
 /-- apply an environment action to every candidate, explore to quiescence. -/
-def advance (cands : List St) (f : St → Option St) : List St :=
-  (cands.filterMap f).flatMap quiesce |>.eraseDups
+def advance (fifo : Bool) (cands : List St) (f : St → Option St) : List St :=
+  (cands.filterMap f).flatMap (quiesce fifo) |>.eraseDups
 
 def monAlways (cs : CaseSt) (o : Obs) : List String :=
   (if atMostOnce o then [] else ["C04.at_most_once"]) ++
@@ -157,67 +173,88 @@ def step (cs : CaseSt) (op obs : String) : CaseSt × R :=
     let kind := toks.headD "?"
     -- model side: the environment action and the expected prefix fields (id= / ret= / got=)
     let before := cs.cands.headD (init 1 1)
-    let (cands', prefixOK, m') : List St × Bool × MSt :=
+    -- per operation: the model action `f`, the test `pre` that a candidate is consistent with the value the
+    -- implementation returned (id= / ret= / got=), and the monitor's bookkeeping.  Candidates differ only in what
+    -- no observation has distinguished so far (e.g. the order in which blocked producers were admitted), so
+    -- everything that depends on the model state is asked of the candidates that are consistent with the
+    -- observation, never of an arbitrary one.
+    let idF : St → Option St := some
+    let (f, pre, mOf) : (St → Option St) × (St → Bool) × (List St → MSt) :=
       match kind with
-      | "new" =>
-        let W := (getNat fs "W").getD 1; let L := (getNat fs "L").getD 1
-        (quiesce (init W L), true, { W := W, Lmin := L, Lmax := L })
+      | "new" => (idF, fun _ => true, fun _ =>
+          let W := (getNat fs "W").getD 1; let L := (getNat fs "L").getD 1
+          { W := W, Lmin := L, Lmax := L })
       | "enq" =>
         let p := ((getF fs "prio").bind (·.toInt?)).getD 1
         let adj := getF fs "adj" == some "1"
-        (advance cs.cands (fun s => step? s (.enqueue p ((getNat fs "name").getD 0) adj)), true,
-         { cs.m with enq := cs.m.enq ++ [(before.nextId, p, adj, cs.m.subs)] })
+        (fun s => step? s (.enqueue p ((getNat fs "name").getD 0) adj), fun _ => true,
+         fun _ => { cs.m with enq := cs.m.enq ++ [(before.nextId, p, adj, cs.m.subs)] })
       | "rel" =>
         let pick := (getNat fs "pick").getD 0
         let err := getF fs "err" == some "1"
         let target (s : St) : Option Nat := if s.running.isEmpty then none else (s.running[pick % s.running.length]?).map (·.id)
         let implId := (getF ofs "id").bind (·.toNat?)
-        (advance cs.cands (fun s => match target s with | some id => step? s (.finish id err) | none => some s),
-         target before == implId,
-         match implId with | some id => { cs.m with released := cs.m.released ++ [(id, err)] } | none => cs.m)
+        (fun s => match target s with | some id => step? s (.finish id err) | none => some s,
+         fun s => target s == implId,
+         fun _ => match implId with | some id => { cs.m with released := cs.m.released ++ [(id, err)] } | none => cs.m)
       | "setadj" =>
         let id := (getNat fs "id").getD 0
         let v := ((getF fs "v").bind (·.toInt?)).getD 0
-        (advance cs.cands (fun s => if id < s.nextId && (stored s ++ s.running).any (fun it => it.id == id && it.adj) || cs.m.enq.any (fun e => e.1 == id && e.2.2.1)
-                                    then step? s (.setAdj id v) else some s), true, cs.m)
-      | "sub" => (advance cs.cands (fun s => step? s .subscribe), true, { cs.m with subs := cs.m.subs + 1 })
+        (fun s => if id < s.nextId && (stored s ++ s.running).any (fun it => it.id == id && it.adj) || cs.m.enq.any (fun e => e.1 == id && e.2.2.1)
+                  then step? s (.setAdj id v) else some s, fun _ => true, fun _ => cs.m)
+      | "sub" => (fun s => step? s .subscribe, fun _ => true, fun _ => { cs.m with subs := cs.m.subs + 1 })
       | "recverr" =>
         let sub := (getNat fs "sub").getD 0
         let expect (s : St) : Option Nat := match s.mon with | .fanout e (x :: _) => if x == sub then some e else none | _ => none
-        (advance cs.cands (fun s => match expect s with | some _ => step? s (.subRecv sub) | none => some s),
-         (getF ofs "got").bind (·.toNat?) == expect before, cs.m)
+        (fun s => match expect s with | some _ => step? s (.subRecv sub) | none => some s,
+         fun s => (getF ofs "got").bind (·.toNat?) == expect s, fun _ => cs.m)
       | "resize" =>
         let L := (getNat fs "L").getD 1
-        (advance cs.cands (fun s => step? s (.resizeLen L)), true, { cs.m with Lmin := min cs.m.Lmin L, Lmax := max cs.m.Lmax L })
+        (fun s => step? s (.resizeLen L), fun _ => true, fun _ => { cs.m with Lmin := min cs.m.Lmin L, Lmax := max cs.m.Lmax L })
       | "deq" =>
         let id := (getNat fs "id").getD 0
-        let ret := dequeueRet before id
         let implRet := getF ofs "ret"
-        if implRet == some "skipped" then (cs.cands, true, cs.m) else
-        (advance cs.cands (fun s => if dequeueRet s id == .nil then step? s (.dequeue id) else some s),
-         implRet == some (if ret == .nil then "nil" else "error"),
-         if implRet == some "nil" && id < before.nextId && (findId (stored before) id).isSome then { cs.m with deqNil := cs.m.deqNil ++ [id] }
-         else if implRet == some "error" then { cs.m with deqErr := cs.m.deqErr ++ [id] } else cs.m)
+        if implRet == some "skipped" then (idF, fun _ => true, fun _ => cs.m) else
+        (fun s => if dequeueRet s id == .nil then step? s (.dequeue id) else some s,
+         fun s => implRet == some (if dequeueRet s id == .nil then "nil" else "error"),
+         fun ok =>
+           if implRet == some "nil" && id < before.nextId && ok.all (fun b => (findId (stored b) id).isSome) then { cs.m with deqNil := cs.m.deqNil ++ [id] }
+           else if implRet == some "error" then { cs.m with deqErr := cs.m.deqErr ++ [id] } else cs.m)
       | "setprio" =>
         let id := (getNat fs "id").getD 0
         let p := ((getF fs "p").bind (·.toInt?)).getD 0
-        let ret := setPrioRet before id
-        if getF ofs "ret" == some "skipped" then (cs.cands, true, cs.m) else
-        (advance cs.cands (fun s => if setPrioRet s id == .nil && (findId (stored s) id).isSome then step? s (.setPrio id p) else some s),
-         getF ofs "ret" == some (if ret == .nil then "nil" else "error"), cs.m)
+        if getF ofs "ret" == some "skipped" then (idF, fun _ => true, fun _ => cs.m) else
+        (fun s => if setPrioRet s id == .nil && (findId (stored s) id).isSome then step? s (.setPrio id p) else some s,
+         fun s => getF ofs "ret" == some (if setPrioRet s id == .nil then "nil" else "error"), fun _ => cs.m)
       | "stop" | "brk" =>
         let a := if kind == "stop" then Act.stop else Act.break_
-        (advance cs.cands (fun s => step? s a), true,
-         { cs.m with stopAt := match cs.m.stopAt with | some x => some x | none => some (sortN (before.accepted ++ before.rejected), before.nextId),
-                     broke := cs.m.broke || kind == "brk",
-                     skippable := if kind == "brk" && cs.m.stopAt.isNone then before.heap.map (·.id) else cs.m.skippable })
-      | "obs" | "final" => (advance cs.cands some, true, cs.m)
-      | _ => ([], false, cs.m)
+        (fun s => step? s a, fun _ => true,
+         fun ok =>
+           -- skippable after Break: what waits in the heap in *every* candidate consistent with the observations
+           let inAll := match ok with
+             | [] => []
+             | b :: rest => (b.heap.map (·.id)).filter (fun i => rest.all (fun c => c.heap.any (·.id == i)))
+           { cs.m with stopAt := match cs.m.stopAt with | some x => some x | none => some (sortN (before.accepted ++ before.rejected), before.nextId),
+                       broke := cs.m.broke || kind == "brk",
+                       skippable := if kind == "brk" && cs.m.stopAt.isNone then inAll else cs.m.skippable })
+      | "obs" | "final" => (idF, fun _ => true, fun _ => cs.m)
+      | _ => (fun _ => none, fun _ => false, fun _ => cs.m)
+    let okBefore := if kind == "new" then [] else cs.cands.filter pre
+    let prefixOK := kind == "new" || !okBefore.isEmpty
+    let m' := mOf okBefore
+    -- successors per candidate, so that a model-based clause can be asked of the right predecessor
+    let succs : List (St × List St) :=
+      if kind == "new" then
+        let W := (getNat fs "W").getD 1; let L := (getNat fs "L").getD 1
+        [(init W L, quiesce cs.fifo (init W L))]
+      else okBefore.map (fun b => (b, advance cs.fifo [b] f))
+    let cands' := (succs.flatMap (·.2)).eraseDups
+    let okPairs := succs.filter (fun bs => bs.2.any (fun s => obsOf s == o))
     let matching := cands'.filter (fun s => obsOf s == o)
     let newly := o.started.filter (fun i => !cs.prevStarted.contains i)
     let cs1 := { cs with m := m' }
     let mon := monAlways cs1 o ++
-      (if kind == "new" || m'.stopAt.isSome || priorityOrderOK before o newly then [] else ["C05.priority_then_fifo"]) ++
+      (if kind == "new" || m'.stopAt.isSome || (if okPairs.isEmpty then priorityOrderOK before o newly else okPairs.any (fun bs => priorityOrderOK bs.1 o newly)) then [] else ["C05.priority_then_fifo"]) ++
       (if kind == "final" then (finalOK m' o).map (fun c => if c == "C04.never_dropped" && m'.stopAt.isSome then "C19.stop_runs_accepted_once" else c) else []) ++
       (if (kind == "deq" || kind == "setprio") && getF ofs "ret" == some "panic" then ["C16.no_panic"] else [])
     let feats := (if o.disp == "wait" then ["fullwait"] else []) ++ (if o.prod > 0 then ["blocked"] else []) ++
@@ -245,9 +282,19 @@ partial def loop (h : IO.FS.Stream) (st : Stats) (cs : CaseSt) (caseNo : String)
   else if line.isEmpty then loop h st cs caseNo lineNo
   else
     let (op, obs) := splitTrace line
-    let (cs', r) := step cs op obs
+    let (cs1, r1) := step cs op obs
+    -- fifo search found no matching candidate: replay the case so far with every admission order
+    let (cs', r, fellBack) :=
+      if cs.fifo && !cs.dead && !r1.diffs.isEmpty then
+        let full := cs.hist.reverse.foldl (fun acc (x : String × String) => (step acc x.1 x.2).1) ({ fifo := false } : CaseSt)
+        if full.dead then (cs1, r1, false) else
+        let (c2, r2) := step full op obs
+        (c2, r2, true)
+      else (cs1, r1, false)
+    let cs' := { cs' with hist := (op, obs) :: cs.hist }
     let mut st := { st with ops := st.ops + 1 }
     st := st.bump r.branch
+    if fellBack then st := st.bump "search.full-admission-orders"
     unless r.diffs.isEmpty do
       IO.println s!"DIFF case={caseNo} line={lineNo} fields={",".intercalate r.diffs} model=[{r.model}] impl=[{obs}] op=[{op}]"
       st := { st with diffs := st.diffs + 1 }
